@@ -134,7 +134,7 @@ def marshal_safe(data, bases):
 
 def classify_body(msg, fresh, bases):
     """item body tokens for a message recv_stub accepted, or None when it cannot be told"""
-    from Pyro5 import serializers, protocol
+    from Pyro5 import serializers, protocol, errors
     ser = serializers.serializers_by_id.get(msg.serializer_id)
     data = bytes(msg.data)
     if msg.serializer_id == MARSHAL_ID and not (msg.type == 6 and not fresh) and not marshal_safe(data, bases):
@@ -161,6 +161,10 @@ def classify_body(msg, fresh, bases):
         return ["H", "1", "1" if d["object"] in KNOWN_OBJECTS else "0", val]
     try:
         call = ser.loadsCall(data)
+    except (errors.CommunicationError, errors.SecurityError):
+        # e.g. msgpack ext code -> SerializeError, dunder class name -> SecurityError: reported AND re-raised (the
+        # connection ends); Server.Body has no such payload kind, so the delivery is left to the oracle
+        return None
     except Exception:
         return ["U"]
     if msg.flags & protocol.FLAGS_KEEPSERIALIZED:
